@@ -32,6 +32,7 @@ ASSUMPTIONS = ["choice points are the lines of add_out_msg, work_write_queue (af
                "select() and an empty queue are 'blocked until ready' for the scheduler; the executions are ones the "
                "interpreter may produce (one thread runs at a time, switches at line boundaries)"]
 TIMEOUT = {"quick": 900, "thorough": 3600}
+SCTP_CLONES = {"quick": ['sched13', 'stress1'], "thorough": ['sched12', 'sched13', 'stress6', 'stress7']}
 PEER = "peer1.verif.example"
 
 PLANS = {
